@@ -2465,7 +2465,7 @@ impl Compiler {
         // in a scope of its own that only the function's closure sees.
         let self_name = func.id.as_ref().map(|id| id.name.cheap_clone());
         if self_name.is_some() {
-            self.builder.emit(Op::PushScope);
+            self.emit_push_scope();
         }
 
         // Emit the appropriate closure creation opcode
@@ -2487,7 +2487,7 @@ impl Compiler {
                 init: dst,
                 mutable: false,
             });
-            self.builder.emit(Op::PopScope);
+            self.emit_pop_scope();
         }
 
         Ok(())
